@@ -1,14 +1,14 @@
 (* Extract.v — extraction of the executable model for the correspondence
    driver.  ExtrOcamlBasic only: bool, option, unit, list, prod, sumbool map
    to their OCaml counterparts; N, Z, positive, nat stay Coq datatypes. *)
-From Nop Require Import Codec.
+From Nop Require Import Codec Spec.
 Require Extraction.
 Require ExtrOcamlBasic.
 Extraction Blacklist List String Int.
 Cd "extract".
 Extraction "nopmodel.ml"
-  dec enc serialize tsize tprefix tmatch has_type val_eqb
-  lr_ops lw_ops bufr_ops bufw_ops bounded_rops bounded_wops
+  dec enc serialize tsize tprefix tmatch has_type val_eqb spec_enc wf no_handles
+  lr_ops lw_ops tlr_ops tlw_ops bufr_ops bufw_ops bounded_rops bounded_wops
   bounded_read_padding bounded_write_padding b_make b_inner b_index b_size
   inst_rops inst_wops inst_make
   N.of_nat N.to_nat Z.of_N Z.to_N Z.of_nat Z.to_nat N.add N.mul N.div N.modulo N.eqb N.ltb
